@@ -27,14 +27,41 @@ MANIFEST = dict(
 "exact (Rat) / bit-for-bit (Float) line-by-line correspondence of single, stateful-block, stateless-block evaluation, "
         "featureDistanceSqr, Gram matrices over many batch partitions (thorough: all ordered partitions of up to 12 points) and the "
         "derivative calls, for dense and sparse inputs, under ASan/UBSan, plus an in-harness property oracle (symmetry, block=single, "
-        "unit diagonal, smallest eigenvalue, finite-difference derivatives of every composed kernel)."),
+        "unit diagonal, smallest eigenvalue, finite-difference derivatives of every composed kernel). "
+        "OBJECT HISTORIES (every run, both tiers): a kernel object is constructed once and then reconfigured in place - "
+        "ScaledKernel::setFactor on any ScaledKernel of the expression (constructed with the default factor in a third of the cases), "
+        "setParameterVector with fresh admissible vectors (offsets, gammas, log-weights, ARD log-gammas, model matrices), 0-4 steps - and all "
+        "clauses are observed again on the SAME object after every step. Model: KObj (Model/Kernels.lean) = current expression + the "
+        "IS_NORMALIZED flag as cached by the constructors, Kern.setFactor / Kern.setParams / numParams; theorems history_flag_sound (the "
+        "cached flag equals the flag of the current expression after EVERY history), history_diag_one, history_featureDistance_def, "
+        "featureDistanceBlock_eq_single (batch featureDistanceSqr = matrix of single feature distances, new op fdistb); correspondence of "
+        "flags (isNormalized, numberOfParameters), setfactor, setparams, fdistb exact/bit-for-bit. In-harness CLAIM ORACLE after every "
+        "reconfiguration on all current points: IS_NORMALIZED => k(x,x)=1 (4 ulp), featureDistanceSqr single and batch = "
+        "k(x,x)-2k(x,z)+k(z,z) (1e-12 relative), parameterVector reads back what setParameterVector installed (1e-12). "
+        "INDEPENDENT ORACLES WITHOUT MODEL (numerical, tolerance stated): op unitvar = the library's own setFactor caller "
+        "NormalizeKernelUnitVariance::train on a default-constructed ScaledKernel over the current kernel and a batched dataset, then the "
+        "claim oracle and unit variance (1e-9); op gderiv = calculateKernelMatrixParameterDerivative over a batch partition against one "
+        "unbatched weightedParameterDerivative call (1e-9 relative; that call is tied to finite differences by dcheck, 2e-5); "
+        "oracle-only configuration cases (harness alone, no Lean model): weighted sums / SubrangeKernels with ADAPTIVE sub-kernels "
+        "(setAdaptiveAll: sub-kernel parameters in the parameter vector and in weightedParameterDerivative), unconstrained (log) encodings "
+        "of the polynomial offset and the Gaussian gamma, ARD with arbitrary gammas, each with a setParameterVector in the middle, judged "
+        "by claim/symmetry/block=single/Gram/eigenvalue/finite-difference oracles."),
   note=TRUST + "floating-point rounding is outside the theorems (exact-arithmetic statements; 'no negative eigenvalues beyond rounding' "
        "is checked numerically by the harness oracle only); Gaussian/ARD PSD-ness is proved for data of equal dimension (the C++ SIZE_CHECK) and is a hypothesis only in the variant for points of unequal length; derivative theorems cover "
        "Gaussian/polynomial/linear/ARD/scaled and the weighted-sum log-weights - derivatives of normalised, sub-range, monomial, model, point-set kernels and the "
        "weighted-sum input derivative are exercised by the finite-difference oracle only (toleranced 2e-5); the Gaussian derivative correspondence is "
        "bit-exact on 1x1 blocks only (ARD: all blocks), PointSetKernel with inexact base values only on singleton sets (summation order not modelled); "
        "PSD of PointSetKernel is proved as a quadratic-form statement (pointSet_quadForm_nonneg), not as Matrix.PosSemidef; MultiTaskKernel, MklKernel and the unconstrained parameter encodings of Gaussian/polynomial are not modelled; ARD, normalised and sub-range kernels "
-       "cannot be instantiated for sparse inputs in Shark, so the sparse runs cover the other kernels. Four genuine defects found by this check "
+       "cannot be instantiated for sparse inputs in Shark, so the sparse runs cover the other kernels. "
+       "Reconfiguration: ARD kernels whose gammas are not exactly representable (after setParameterVector) are outside the bit-exact "
+       "correspondence (dense diagonalMahalanobisDistanceSqr is an inner_prod, BLAS summation order): model-compared histories install ARD "
+       "log-gammas 0 only, arbitrary ones run oracle-only; adaptive sub-kernels and unconstrained encodings are not in the Lean model "
+       "(oracle-only, toleranced); PSD after a history follows from kernel_psd_equalDim applied to the reconfigured expression, an "
+       "explicit admissibility-preservation theorem for setFactor/setParams is not stated; read() from an archive into a differently "
+       "configured object is not exercised here (C18). OPEN finding F-C05-5 product-stale-parameter-count (ProductKernel caches its "
+       "parameter count; heap overflow in parameterVector() after a factor's setAdaptiveAll; corpus/C05/product_stale_parameter_count.txt, "
+       "patch findings_proposed/C05-product-stale-parameter-count.patch): while the corpus probe fails the generator keeps sums below a "
+       "product non-adaptive. Four genuine defects found earlier by this check "
        "(normalized-stateless-block, discrete-block-ignores-indices, monomial-degree1-input-derivative, product-uninitialised-parameter-count) "
        "are repaired in /repo by fix: commits ceaec0f1, f2e5cee8, e15da9fc, dba592e9; their inputs stay in corpus/C05 and the model is the repaired code.",
   technique="Lean 4 proofs by structural induction over a kernel expression language + Mathlib PosSemidef/HasDerivAt + differential correspondence with the C++ (exact / bit mode, ASan/UBSan)",
@@ -42,7 +69,8 @@ MANIFEST = dict(
 
 FINISH = dict(level="proof",
               rule="a case = kernel expression (random composition, depth <= 3, dyadic parameters) + integer points + ops "
-                   "(single / block / sblock / fdist / gram over batch partitions / mixed / pderiv / ideriv / dcheck); non-trivial = composed kernel "
+                   "(single / block / sblock / fdist / fdistb / flags / gram over batch partitions / mixed / pderiv / ideriv / dcheck / gderiv / unitvar) "
+                   "+ in-place reconfigurations (setfactor / setparams / adaptall) with observations after each; non-trivial = composed kernel "
                    "(depth >= 1) or a Gram op with >= 2 batches; distinct = distinct op text")
 
 LAKE_TARGETS = ["SharkVerif.Props.C05", "drv_c05"]
@@ -60,6 +88,11 @@ def dy(fr):
     return f"{fr.numerator}:{-e}"
 
 
+def parse_dy(t):
+    if ":" not in t: return Fraction(int(t))
+    m, e = t.split(":"); return Fraction(int(m)) * Fraction(2) ** int(e)
+
+
 def fbits(fr):
     return Fraction(fr).denominator.bit_length() - 1
 
@@ -67,6 +100,28 @@ def fbits(fr):
 def is_pow2(fr):
     fr = Fraction(fr)
     return fr > 0 and (fr.numerator & (fr.numerator - 1)) == 0 and (fr.denominator & (fr.denominator - 1)) == 0
+
+
+# admissible parameter values (dyadic): construction-time values and the values installed later by
+# setFactor / setParameterVector come from the same sets
+FACTORS = [Fraction(1, 2), Fraction(2), Fraction(3), Fraction(1, 4), Fraction(5, 2)]          # ScaledKernel factor (> 0); 1 = default
+OFFSETS = [Fraction(0), Fraction(1), Fraction(1, 2), Fraction(2), Fraction(3, 4), Fraction(1)]  # polynomial offset (>= 0)
+GAMMAS = [Fraction(1, 4), Fraction(1, 2), Fraction(1), Fraction(2), Fraction(1, 8), Fraction(3, 4)]   # Gaussian gamma (> 0)
+LOGS = [Fraction(0), Fraction(0), Fraction(1), Fraction(-1), Fraction(1, 2), Fraction(-2)]      # log-encoded weights / ARD gammas
+
+
+def new_params(r, ps, free_ard=False):
+    """a fresh admissible parameter vector for the parameter slots `ps` of a generated kernel.
+    ARD: gamma_i = exp(p_i); the dense diagonalMahalanobisDistanceSqr is an inner_prod (BLAS summation order), so the
+    bit-exact correspondence needs exactly representable gammas: p_i = 0 unless `free_ard` (oracle-only cases)"""
+    out = []
+    for q in ps:
+        if q == "off": out.append(r.choice(OFFSETS))
+        elif q == "gamma": out.append(r.choice(GAMMAS))
+        elif q == "int": out.append(Fraction(r.range(-1, 1)))
+        elif q == "logg" and not free_ard: out.append(Fraction(0))
+        else: out.append(r.choice(LOGS))
+    return out
 
 
 # ----------------------------------------------------------------------------- kernel generator
@@ -77,31 +132,69 @@ class KGen:
 
     def __init__(self, r):
         self.r = r
+        self.nscaled = 0      # number of ScaledKernel objects generated so far
+        self.unconstrained = False   # leaves may use the unconstrained (log) parameter encodings (oracle-only cases)
+        self.scaled_bias = 0  # percent chance that a composite position holds a ScaledKernel (history cases)
         self.no_norm = 0      # > 0 below a ModelKernel: the mapped point may be the zero vector (0/0 in a normalised linear kernel)
 
     def leaf(self, dim, allow_exp=True):
+        t, i = self._leaf(dim, allow_exp)
+        if self.unconstrained and t[0] in ("poly", "gauss") and self.r.chance(1, 2):
+            # unconstrained encoding: the parameter is the log of offset / gamma (offset > 0 then)
+            if t[0] == "poly" and Fraction(0) == parse_dy(t[2]): t = [t[0], t[1], "1"]
+            t = [t[0] + "u"] + t[1:]
+            i = dict(i, exact=False, kinds=i["kinds"] | {t[0]}, ps=["logw"])
+        i["psa"] = i["ps"]
+        return t, i
+
+    def _leaf(self, dim, allow_exp=True):
         r = self.r
         x = r.below(100)
         dotmax = dim * self.COORD * self.COORD
         if x < 22:
-            return ["lin"], dict(exact=True, M=Fraction(dotmax), f=0, kinds={"lin"}, depth=0)
+            return ["lin"], dict(exact=True, M=Fraction(dotmax), f=0, kinds={"lin"}, depth=0, ps=[])
         if x < 45:
             d = r.choice([1, 1, 2, 2, 3, 4])
-            c = r.choice([Fraction(0), Fraction(1), Fraction(1, 2), Fraction(2), Fraction(3, 4), Fraction(1)])
-            return ["poly", str(d), dy(c)], dict(exact=True, M=(dotmax + c) ** d, f=fbits(c) * d, kinds={"poly"}, depth=0)
+            c = r.choice(OFFSETS)
+            # bounds hold for every offset a later setParameterVector may install (max 2, 2 fraction bits)
+            return ["poly", str(d), dy(c)], dict(exact=True, M=(dotmax + 2) ** d, f=2 * d, kinds={"poly"}, depth=0, ps=["off"])
         if x < 60:
             n = r.choice([0, 1, 1, 2, 2, 3, 4])
-            return ["mono", str(n)], dict(exact=True, M=Fraction(dotmax) ** n, f=0, kinds={"mono"}, depth=0)
+            return ["mono", str(n)], dict(exact=True, M=Fraction(dotmax) ** n, f=0, kinds={"mono"}, depth=0, ps=[])
         if not allow_exp:
-            return self.leaf(dim, allow_exp)
+            return self._leaf(dim, allow_exp)
         if x < 82:
-            g = r.choice([Fraction(1, 4), Fraction(1, 2), Fraction(1), Fraction(2), Fraction(1, 8), Fraction(3, 4)])
-            return ["gauss", dy(g)], dict(exact=False, M=Fraction(1), f=0, kinds={"gauss"}, depth=0)
+            g = r.choice(GAMMAS)
+            return ["gauss", dy(g)], dict(exact=False, M=Fraction(1), f=0, kinds={"gauss"}, depth=0, ps=["gamma"])
         gs = [r.choice([Fraction(1, 4), Fraction(1, 2), Fraction(1), Fraction(2), Fraction(3, 8)]) for _ in range(dim)]
-        return ["ard", str(dim)] + [dy(g) for g in gs], dict(exact=False, M=Fraction(1), f=0, kinds={"ard"}, depth=0)
+        return ["ard", str(dim)] + [dy(g) for g in gs], dict(exact=False, M=Fraction(1), f=0, kinds={"ard"}, depth=0, ps=["logg"] * dim)
+
+    def mk_scaled(self, dim, depth):
+        """ScaledKernel; factor 1 = the constructor default (`ScaledKernel<> k(&base)`), the factor is typically
+        installed later by setFactor (NormalizeKernelUnitVariance): bounds hold for every factor of FACTORS"""
+        r = self.r
+        s = Fraction(1) if r.chance(1, 3) else r.choice(FACTORS)
+        self.nscaled += 1                    # pre-order numbering of the ScaledKernel objects (op setfactor)
+        t, i = self.gen(dim, depth - 1)
+        return ["scaled", dy(s)] + t, dict(exact=i["exact"], M=i["M"] * max(FACTORS), f=i["f"] + 2, kinds=i["kinds"] | {"scaled"},
+                                          depth=i["depth"] + 1, ps=i["ps"], psa=i["psa"])
+
+    def mk_prod(self, dim, depth):
+        r = self.r
+        n = r.choice([1, 2, 2, 3])
+        subs = [self.gen(dim, depth - 1) for _ in range(n)]
+        toks = ["prod", str(n)]
+        M, f = Fraction(1), 0
+        for t, i in subs:
+            toks += t; M *= i["M"]; f += i["f"]
+        return toks, dict(exact=all(i["exact"] for _, i in subs), M=M, f=f,
+                          kinds=set().union(*[i["kinds"] for _, i in subs]) | {"prod"}, depth=1 + max(i["depth"] for _, i in subs),
+                          ps=[q for _, i in subs for q in i["ps"]], psa=[q for _, i in subs for q in i["psa"]])
 
     def gen(self, dim, depth):
         r = self.r
+        if depth > 0 and self.scaled_bias and r.chance(self.scaled_bias, 100):
+            return self.mk_scaled(dim, depth)
         if depth == 0 or r.chance(1, 4):
             return self.leaf(dim)
         x = r.below(100)
@@ -109,11 +202,9 @@ class KGen:
             t, i = self.gen(dim, depth - 1)
             if "model" in i["kinds"]:      # A x + b may be the zero vector: k(x,x) = 0, the normalised kernel is 0/0 there
                 return t, i
-            return ["norm"] + t, dict(exact=False, M=Fraction(1), f=0, kinds=i["kinds"] | {"norm"}, depth=i["depth"] + 1)
+            return ["norm"] + t, dict(exact=False, M=Fraction(1), f=0, kinds=i["kinds"] | {"norm"}, depth=i["depth"] + 1, ps=i["ps"], psa=i["psa"])
         if x < 34:
-            s = r.choice([Fraction(1, 2), Fraction(2), Fraction(3), Fraction(1, 4), Fraction(1), Fraction(5, 2)])
-            t, i = self.gen(dim, depth - 1)
-            return ["scaled", dy(s)] + t, dict(exact=i["exact"], M=i["M"] * s, f=i["f"] + fbits(s), kinds=i["kinds"] | {"scaled"}, depth=i["depth"] + 1)
+            return self.mk_scaled(dim, depth)
         if x < 56:
             n = r.choice([1, 2, 2, 3, 3, 4])
             subs = [self.gen(dim, depth - 1) for _ in range(n)]
@@ -128,7 +219,8 @@ class KGen:
                 for t, _ in subs: toks += t
                 k = n.bit_length() - 1
                 return toks, dict(exact=ex, M=max(i["M"] for _, i in subs), f=max(i["f"] for _, i in subs) + k,
-                                  kinds=kinds | {"wsump"}, depth=dep)
+                                  kinds=kinds | {"wsump"}, depth=dep, ps=["logw"] * (n - 1),
+                                  psa=["logw"] * (n - 1) + [q for _, i in subs for q in i["psa"]])
             ws = [Fraction(1)] + [r.choice([Fraction(1), Fraction(2), Fraction(1, 2), Fraction(3), Fraction(1), Fraction(5)]) for _ in range(n - 1)]
             s = sum(ws)
             ex = is_pow2(s) and all(i["exact"] for _, i in subs)
@@ -137,16 +229,10 @@ class KGen:
             k = fbits(1 / s) if is_pow2(s) else 0
             M = sum(w * i["M"] for w, (_, i) in zip(ws, subs)) / s
             f = max(i["f"] + fbits(w) for w, (_, i) in zip(ws, subs)) + max(k, 0)
-            return toks, dict(exact=ex, M=M, f=f, kinds=kinds | {"wsum"}, depth=dep)
+            return toks, dict(exact=ex, M=M, f=f, kinds=kinds | {"wsum"}, depth=dep, ps=["logw"] * (n - 1),
+                              psa=["logw"] * (n - 1) + [q for _, i in subs for q in i["psa"]])
         if x < 78:
-            n = r.choice([1, 2, 2, 3])
-            subs = [self.gen(dim, depth - 1) for _ in range(n)]
-            toks = ["prod", str(n)]
-            M, f = Fraction(1), 0
-            for t, i in subs:
-                toks += t; M *= i["M"]; f += i["f"]
-            return toks, dict(exact=all(i["exact"] for _, i in subs), M=M, f=f,
-                              kinds=set().union(*[i["kinds"] for _, i in subs]) | {"prod"}, depth=1 + max(i["depth"] for _, i in subs))
+            return self.mk_prod(dim, depth)
         if x < 86:
             # ModelKernel over a LinearModel x -> A x + b (small integer matrix)
             rdim = r.choice([1, 2, 3])
@@ -159,7 +245,8 @@ class KGen:
             self.no_norm -= 1
             self.COORD = save
             toks = ["model", str(rdim), str(dim)] + [str(v) for row in A for v in row] + [str(v) for v in bvec] + t
-            return toks, dict(exact=i["exact"], M=i["M"], f=i["f"], kinds=i["kinds"] | {"model"}, depth=i["depth"] + 1)
+            return toks, dict(exact=i["exact"], M=i["M"], f=i["f"], kinds=i["kinds"] | {"model"}, depth=i["depth"] + 1,
+                              ps=i["ps"] + ["int"] * (rdim * dim + rdim), psa=i["psa"] + ["int"] * (rdim * dim + rdim))
         if x < 92 and dim >= 2:
             # the real SubrangeKernel class (weighted sum of sub-range wrappers, weights via setParameterVector)
             n = r.choice([1, 2, 2, 3])
@@ -172,13 +259,14 @@ class KGen:
                 toks += [str(a), str(b)] + t; subs.append(i)
             ex = all(p == 0 for p in ps) and is_pow2(n) and all(i["exact"] for i in subs)
             return toks, dict(exact=ex, M=max(i["M"] for i in subs), f=max(i["f"] for i in subs) + n.bit_length(),
-                              kinds=set().union(*[i["kinds"] for i in subs]) | {"subk", "sub"}, depth=1 + max(i["depth"] for i in subs))
+                              kinds=set().union(*[i["kinds"] for i in subs]) | {"subk", "sub"}, depth=1 + max(i["depth"] for i in subs),
+                              ps=["logw"] * (n - 1), psa=["logw"] * (n - 1) + [q for i in subs for q in i["psa"]])
         if dim >= 2:
             a = r.below(dim - 1); b = r.range(a + 1, dim)
             if a == 0 and b == dim: a = 1 if dim > 1 and r.chance(1, 2) else 0
             if b <= a: b = a + 1
             t, i = self.gen(b - a, depth - 1)
-            return ["sub", str(a), str(b)] + t, dict(exact=i["exact"], M=i["M"], f=i["f"], kinds=i["kinds"] | {"sub"}, depth=i["depth"] + 1)
+            return ["sub", str(a), str(b)] + t, dict(exact=i["exact"], M=i["M"], f=i["f"], kinds=i["kinds"] | {"sub"}, depth=i["depth"] + 1, ps=i["ps"], psa=i["psa"])
         return self.leaf(dim)
 
 
@@ -221,6 +309,104 @@ def gen_points(r, n, dim, nonzero):
     if n >= 3 and r.chance(1, 3):
         pts[n - 1] = list(pts[0])          # duplicate point (rank-deficient Gram matrix)
     return pts
+
+
+def observe_ops(r, n, reg):
+    """observations of the current object: flags, diagonal, feature distances (single + batch), blocks, Gram matrix"""
+    i = r.below(n)
+    ops = ["flags", f"single {i} {i}", f"single {r.below(n)} {r.below(n)}", f"fdist {r.below(n)} {r.below(n)}"]
+    a = r.below(n); b = r.range(a + 1, n); c = r.below(n); d = r.range(c + 1, n)
+    ops.append(f"fdistb {a} {b} {c} {d}")
+    if r.chance(1, 2): ops += [f"block {a} {b} {c} {d}", f"sblock {a} {b} {c} {d}"]
+    if r.chance(1, 2): ops.append(f"gram {dy(reg)} " + " ".join(map(str, rand_partition(r, n))))
+    return ops
+
+
+def history_ops(r, toks, info, n, reg, steps, free_ard=False):
+    """a history of in-place reconfigurations (ScaledKernel::setFactor on any ScaledKernel object of the expression,
+    setParameterVector with a fresh admissible vector), each followed by observations.
+    Returns (ops, inexact): setParameterVector goes through exp for log-encoded slots -> bit mode only"""
+    ops, inexact = [], False
+    nsc = toks.count("scaled")
+    for _ in range(steps):
+        if nsc and r.chance(2, 3):
+            ops.append(f"setfactor {r.below(nsc)} {dy(Fraction(1) if r.chance(1, 6) else r.choice(FACTORS))}")
+        else:
+            ops.append("setparams " + " ".join(dy(v) for v in new_params(r, info["ps"], free_ard)))
+            inexact = inexact or any(q in ("logw", "logg") for q in info["ps"])
+        ops[-1] = ops[-1].strip()
+        ops += observe_ops(r, n, reg)
+    return ops, inexact
+
+
+def gen_history_case(r, maxn):
+    """object histories: a kernel whose composite positions often hold ScaledKernel objects (constructed with the default
+    factor in a third of the cases), reconfigured 2-4 times, observed after every step"""
+    dim = r.choice([1, 2, 2, 3]); n = r.range(2, maxn)
+    kg = KGen(r); kg.scaled_bias = 40
+    top = r.below(3)
+    depth = r.choice([1, 2, 2, 3])
+    if top == 0: toks, info = kg.mk_scaled(dim, depth)
+    elif top == 1: toks, info = kg.mk_prod(dim, depth)
+    else: toks, info = kg.gen(dim, depth)
+    pts = gen_points(r, n, dim, "norm" in info["kinds"])
+    reg = r.choice([Fraction(0), Fraction(0), Fraction(1, 2)])
+    ops = ["kern " + " ".join(toks), f"pts {n} {dim} " + " ".join(str(v) for p in pts for v in p)]
+    ops += observe_ops(r, n, reg)
+    # ARD kernels with arbitrary gammas: the model is not bit-exact there (BLAS order) -> such histories are run on the real
+    # code alone, judged by the in-harness oracle (claims, symmetry, block = single, Gram, eigenvalues, finite differences)
+    free_ard = "logg" in info["ps"] and r.chance(1, 2)
+    hist, inexact = history_ops(r, toks, info, n, reg, steps=r.range(2, 4), free_ard=free_ard)
+    ops += hist
+    ops.append("unitvar " + " ".join(map(str, rand_partition(r, n))))
+    a = r.below(n); b = r.range(a + 1, min(n, a + 3)); c = r.below(n); d = r.range(c + 1, min(n, c + 3))
+    ops.append(f"dcheck {a} {b} {c} {d} " + " ".join(str(r.range(-2, 2)) for _ in range((b - a) * (d - c))))
+    if inexact: info = dict(info, exact=False)
+    info = dict(info, n=n, dim=dim, parts=0, exact_case=exact_ok(info), kinds=info["kinds"] | {"history"}, oracle_only=free_ard)
+    return ops, info
+
+
+def probe_fails(exe, env, cases):
+    import subprocess
+    e = dict(os.environ); e.setdefault("ASAN_OPTIONS", "detect_leaks=0"); e.update(env)
+    for c in cases:
+        p = subprocess.run([exe, "dense"], input="\n".join(c) + "\n", capture_output=True, text=True, errors="replace", env=e, timeout=120)
+        if p.returncode != 0 or "!oracle" in p.stdout:
+            return True
+    return False
+
+
+def gen_config_case(r, maxn, avoid_prod_adaptive=False):
+    """configurations the model does not cover, run on the real code alone and judged by the in-harness oracle:
+    weighted sums / SubrangeKernels whose sub-kernels are adaptive (setAdaptiveAll: the sub-kernels' parameters are part of
+    the parameter vector and of weightedParameterDerivative), unconstrained (log) encodings of the polynomial offset and the
+    Gaussian gamma, ARD with arbitrary gammas; with a setParameterVector in the middle"""
+    dim = r.choice([2, 2, 3, 3, 4]); n = r.range(3, maxn)
+    for _ in range(40):
+        kg = KGen(r); kg.unconstrained = True; kg.scaled_bias = 10
+        toks, info = kg.gen(dim, r.choice([1, 2, 2, 3]))
+        sums = [t for t in toks if t in ("wsum", "wsump", "subk")]
+        if sums or "polyu" in toks or "gaussu" in toks: break
+    pts = gen_points(r, n, dim, "norm" in info["kinds"])
+    reg = r.choice([Fraction(0), Fraction(1, 2)])
+    ops = ["kern " + " ".join(toks), f"pts {n} {dim} " + " ".join(str(v) for p in pts for v in p), "flags"]
+    adaptive = bool(sums) and r.chance(3, 4)
+    if avoid_prod_adaptive and "prod" in toks: adaptive = False
+    if adaptive: ops += ["adaptall", "flags"]
+    slots = info["psa"] if adaptive else info["ps"]
+
+    def derivs():
+        for _ in range(2):
+            a = r.below(n); b = r.range(a + 1, min(n, a + 3)); c = r.below(n); d = r.range(c + 1, min(n, c + 3))
+            ops.append(f"dcheck {a} {b} {c} {d} " + " ".join(str(r.range(-2, 2)) for _ in range((b - a) * (d - c))))
+        ops.append("gderiv " + " ".join(map(str, rand_partition(r, n))))
+    derivs()
+    ops.append(("setparams " + " ".join(dy(v) for v in new_params(r, slots, free_ard=True))).strip())
+    ops += observe_ops(r, n, reg)
+    derivs()
+    info = dict(info, n=n, dim=dim, parts=0, exact_case=False, oracle_only=True,
+                kinds=info["kinds"] | {"config"} | ({"adaptive"} if adaptive else set()))
+    return ops, info
 
 
 def gen_case(ctx, r, maxn, all_partitions=False):
@@ -266,6 +452,14 @@ def gen_case(ctx, r, maxn, all_partitions=False):
         psops.append(f"ps gram 0 " + " ".join(map(str, rand_partition(r, m))))
         info = dict(info, f=info["f"] + 4, kinds=info["kinds"] | {"pointset"})
         ops += psops
+    # the object is reconfigured in place and everything is observed again on the SAME object
+    a = r.below(n); b = r.range(a + 1, n); c = r.below(n); d = r.range(c + 1, n)
+    ops += ["flags", f"fdistb {a} {b} {c} {d}"]
+    hist, inexact = history_ops(r, toks, info, n, reg, steps=r.range(0, 2))
+    ops += hist
+    if inexact: info = dict(info, exact=False)
+    ops.append("unitvar " + " ".join(map(str, rand_partition(r, n))))
+    ops.append("gderiv " + " ".join(map(str, rand_partition(r, n))))
     # numerical derivative oracle on the real code (finite differences); last, because it resets parameters
     a = r.below(n); b = r.range(a + 1, min(n, a + 3)); c = r.below(n); d = r.range(c + 1, min(n, c + 3))
     ops.append(f"dcheck {a} {b} {c} {d} " + " ".join(str(r.range(-2, 2)) for _ in range((b - a) * (d - c))))
@@ -303,15 +497,25 @@ def gen_deriv_case(r, maxn):
         toks = ["scaled", dy(r.choice([Fraction(1, 2), Fraction(2), Fraction(3), Fraction(1, 4)]))] + toks
     pts = gen_points(r, n, dim, False)
     ops = ["kern " + " ".join(toks), f"pts {n} {dim} " + " ".join(str(v) for p in pts for v in p)]
-    for _ in range(r.range(2, 4)):
-        if "gauss" in toks:
-            a = r.below(n); b = a + 1; c = r.below(n); d = c + 1
+    def deriv_ops():
+        for _ in range(r.range(2, 4)):
+            if "gauss" in toks:
+                a = r.below(n); b = a + 1; c = r.below(n); d = c + 1
+            else:
+                a = r.below(n); b = r.range(a + 1, n); c = r.below(n); d = r.range(c + 1, n)
+            co = " ".join(dy(r.choice([Fraction(v) for v in (-3, -2, -1, 0, 1, 2, 3)] + [Fraction(1, 2), Fraction(-3, 4)])) for _ in range((b - a) * (d - c)))
+            ops.append(f"pderiv {a} {b} {c} {d} {co}")
+            if not wsum_case:
+                ops.append(f"ideriv {a} {b} {c} {d} {co}")
+    deriv_ops()
+    if not wsum_case and "lin" not in toks and r.chance(1, 2):
+        # the derivative code must follow an in-place reconfiguration (live factor / live parameters)
+        if toks[0] == "scaled" and r.chance(1, 2):
+            ops.append(f"setfactor 0 {dy(r.choice(FACTORS))}")
         else:
-            a = r.below(n); b = r.range(a + 1, n); c = r.below(n); d = r.range(c + 1, n)
-        co = " ".join(dy(r.choice([Fraction(v) for v in (-3, -2, -1, 0, 1, 2, 3)] + [Fraction(1, 2), Fraction(-3, 4)])) for _ in range((b - a) * (d - c)))
-        ops.append(f"pderiv {a} {b} {c} {d} {co}")
-        if not wsum_case:
-            ops.append(f"ideriv {a} {b} {c} {d} {co}")
+            slots = ["off"] if "poly" in toks else ["gamma"] if "gauss" in toks else ["logg"] * dim
+            ops.append("setparams " + " ".join(dy(v) for v in new_params(r, slots)))
+        deriv_ops()
     a = r.below(n); b = r.range(a + 1, n); c = r.below(n); d = r.range(c + 1, n)
     ops.append(f"dcheck {a} {b} {c} {d} " + " ".join(str(r.range(-2, 2)) for _ in range((b - a) * (d - c))))
     return ops, dict(exact=exact, exact_case=exact, kinds=set(kinds_of(ops)) | {"deriv"}, depth=0, n=n, dim=dim, parts=0, M=Fraction(1), f=0)
@@ -342,7 +546,7 @@ def gen_discrete_case(r, all_partitions=False):
 # ----------------------------------------------------------------------------- classification
 def kinds_of(ops):
     toks = ops[0].split() if ops else []
-    names = {"lin", "poly", "mono", "gauss", "ard", "norm", "scaled", "wsum", "wsump", "prod", "sub", "disc", "model", "subk"}
+    names = {"lin", "poly", "mono", "gauss", "ard", "norm", "scaled", "wsum", "wsump", "prod", "sub", "disc", "model", "subk", "polyu", "gaussu"}
     return sorted({t for t in toks[1:] if t in names})
 
 
@@ -356,7 +560,18 @@ def classify(ops, res):
     if res.crash:
         m = re.search(r"ERROR: AddressSanitizer: (\S+)|runtime error: ([^\n]*)", res.stderr)
         crash = (m.group(1) or m.group(2)) if m else "crash"
-    blockish = any(o in ("block", "gram", "mixed", "fdist") for o in opk)
+    # the op whose line carries the oracle failure (the named keys below are tied to the op that exposes the listed defect,
+    # so that a different violation on a kernel of the same kind is not classified as that finding)
+    fop = None
+    for o, l in zip(ops, res.impl):
+        if "!oracle" in l:
+            w = o.split(); fop = w[1] if w[0] == "ps" and len(w) > 1 else w[0]
+            break
+    reconfigured = any(o in ("setfactor", "setparams") for o in opk)
+    if fop is not None:
+        blockish = fop in ("block", "gram", "mixed", "fdist") and not reconfigured
+    else:
+        blockish = any(o in ("block", "gram", "mixed", "fdist") for o in opk) and not reconfigured
     # stable keys of the two defects found while building this check (see findings_proposed/C05.md)
     f4_tags = {"block-vs-single", "gram-vs-single", "asymmetric-block", "asymmetric-gram", "normalized-diag",
                "feature-distance-batch", "block-shape", "negative-eigenvalue"}
@@ -365,18 +580,22 @@ def classify(ops, res):
                                              f"({tag or crash}) on ops {ops}")
     if "disc" in kinds and blockish and (crash or tag in f4_tags):
         return "discrete-block-ignores-indices", (f"DiscreteKernel block evaluation ignores the batch contents ({tag or crash}) on ops {ops}")
-    if "mono" in kinds and tag == "input-derivative" and re.search(r"\bmono 1\b", ops[0]):
+    if "mono" in kinds and tag == "input-derivative" and fop == "dcheck" and re.search(r"\bmono 1\b", ops[0]):
         return "monomial-degree1-input-derivative", (f"MonomialKernel(1)::weightedInputDerivative is 0 where <x,z> = 0 "
                                                     f"(finite differences disagree) on ops {ops}")
     if "prod" in kinds and tag in ("product-parameter-count", "parameter-vector-size"):
         return "product-uninitialised-parameter-count", (f"ProductKernel::m_numberOfParameters is never initialised: "
                                                         f"numberOfParameters() is garbage ({res.oracle[0][-90:]}) for '{ops[0]}'")
+    if "prod" in kinds and crash and "adaptall" in ops and len(res.impl) == ops.index("adaptall"):
+        # the harness dies inside the adaptall op itself (its parameterVector() call) on a kernel containing a product
+        return "product-stale-parameter-count", (f"ProductKernel::m_numberOfParameters is stale after a factor's parameter count changed "
+                                                 f"(setAdaptiveAll): parameterVector() overflows ({crash}) on ops {ops}")
     if "prod" in kinds and "prod 0" in ops[0] and (crash or tag):
         return "empty-product-block", f"ProductKernel with no factors: block evaluation fails ({tag or crash}) on ops {ops}"
     if crash:
         return f"crash:{crash}:{'+'.join(kinds)}", f"harness aborted ({crash}) on ops {ops}"
     if tag:
-        return f"oracle:{tag}:{'+'.join(kinds)}", f"property oracle failed ({tag}) on ops {ops}"
+        return f"oracle:{tag}:{'+'.join(kinds)}:{fop}", f"property oracle failed ({tag}) at op {fop} on ops {ops}"
     return f"mismatch:{'+'.join(kinds)}:{'+'.join(opk)}", f"model and implementation disagree at line {res.diff_at} of ops {ops}"
 
 
@@ -423,11 +642,16 @@ def run(ctx):
     if not exe or not drv:
         return
     r = ctx.rng.fork("c05")
+    # SHARK_PARALLEL_FOR in the Gram assembly stays parallel (2 threads), but without 16 spinning threads
+    env = {"OMP_NUM_THREADS": "2" if ctx.quick else "3", "OMP_WAIT_POLICY": "passive"}
     ncases, ndisc, maxn = (400, 40, 7) if ctx.quick else (2500, 200, 10)
     nderiv = 80 if ctx.quick else 500
+    nhist = 300 if ctx.quick else 1000
+    nconf = 300 if ctx.quick else 1000
     cases = []       # (ops, info)
     for ops, mode in load_corpus():
-        cases.append((ops, dict(exact_case=(mode == "exact"), kinds=set(kinds_of(ops)), depth=-1, n=0, dim=0, parts=0, corpus=True)))
+        cases.append((ops, dict(exact_case=(mode == "exact"), kinds=set(kinds_of(ops)), depth=-1, n=0, dim=0, parts=0, corpus=True,
+                                oracle_only=(mode == "oracle-only"))))
     ctx.cov["corpus_cases"] = len(cases)
     for _ in range(ncases):
         cases.append(gen_case(ctx, r, maxn))
@@ -435,6 +659,15 @@ def run(ctx):
         cases.append(gen_discrete_case(r))
     for _ in range(nderiv):
         cases.append(gen_deriv_case(r, maxn))
+    for _ in range(nhist):
+        cases.append(gen_history_case(r, maxn))
+    # open finding product-stale-parameter-count: while the defect is present, sub-kernels of sums below a ProductKernel are
+    # not made adaptive in the generated stream (every such case would die in ProductKernel::parameterVector); the corpus
+    # case keeps reporting it, and on a repaired tree the probe passes and those configurations are generated
+    stale = probe_fails(exe, env, [o for o, m in load_corpus() if o and "adaptall" in o and "prod" in o[0]])
+    ctx.cov["probe_product_stale_parameter_count"] = "defect present" if stale else "passes"
+    for _ in range(nconf):
+        cases.append(gen_config_case(r, maxn, avoid_prod_adaptive=stale))
     if not ctx.quick:
         # partition independence: ALL ordered batch partitions of n points (n <= 12)
         for n in (6, 8, 10, 12):
@@ -465,8 +698,18 @@ def run(ctx):
     ctx.cov["gram_ops"] = sum(1 for o, _ in cases for x in o if x.startswith("gram"))
     ctx.sample({"ops": cases[len(cases) // 2][0][:8]})
     ctx.sample({"ops": cases[len(cases) // 3][0][:8]})
-    # SHARK_PARALLEL_FOR in the Gram assembly stays parallel (2 threads), but without 16 spinning threads
-    env = {"OMP_NUM_THREADS": "2" if ctx.quick else "3", "OMP_WAIT_POLICY": "passive"}
+    oonly = [o for o, i in cases if i.get("oracle_only")]
+    cases = [(o, i) for o, i in cases if not i.get("oracle_only")]
+    ctx.cov["cases_oracle_only"] = len(oonly)
+    if oonly:
+        # one harness process for all of them (the session is reset by every `kern` line); on failure case by case
+        e = dict(os.environ); e.setdefault("ASAN_OPTIONS", "detect_leaks=0"); e.update(env)
+        import subprocess
+        p = subprocess.run([exe, "dense"], input="\n".join(l for o in oonly for l in o) + "\n", capture_output=True, text=True, errors="replace", env=e, timeout=600)
+        if p.returncode != 0 or "!oracle" in p.stdout:
+            core.oracle_only(ctx, "K-C05[dense,oracle-only histories]", oonly, [exe, "dense"], classify, env=env)
+        else:
+            ctx.log(f"K-C05[dense,oracle-only histories]: {len(oonly)} cases pass the in-harness oracle")
     for inp in ("dense", "sparse"):
         sel = [(o, i) for o, i in cases if inp == "dense" or not (set(i["kinds"]) & SPARSE_UNSUPPORTED)]
         if inp == "sparse":      # weightedInputDerivative needs a dense batch type
@@ -478,6 +721,7 @@ def run(ctx):
         core.correspond(ctx, f"K-C05[{inp},rat]", ex, [exe, inp], [drv, "rat"], classify, keep_prefix=2, env=env)
     ctx.sample({"theorems": ["k_symm", "batch_eval_eq_single", "batch_evalS_eq_single", "gram_assembly_correct",
                              "gram_partition_independent", "normalized_diag_one", "isNormalized_diag_one", "featureDistance_def",
+                             "history_flag_sound", "history_diag_one", "history_featureDistance_def", "featureDistanceBlock_eq_single",
                              "linear_psd", "kernel_psd", "gram_psd", "gauss_weightedParameterDerivative",
                              "poly_weightedParameterDerivative", "gauss_weightedInputDerivative"]})
 
